@@ -13,6 +13,7 @@ for p in "$@"; do
   out=$(cd "$V" && TEXSOUP_REPO="$W" PYTHONHASHSEED=0 PYTHONDONTWRITEBYTECODE=1 /venv/bin/python -W ignore harness/main.py $p --tier ${TIER:-quick} 2>&1); rc=$?
   echo "== $p exit=$rc"; printf "%s\n" "$out" | grep -E "VIOLATION|KNOWN-FINDING|NOTE:|obligations|Traceback|Error" | cut -c1-300
   for r in $(printf "%s\n" "$out" | grep -o 'replay=[^ ]*' | cut -d= -f2); do
+    [ -f "$r" ] && mkdir -p /tmp/replays-keep && cp "$r" /tmp/replays-keep/$(basename "$P" .diff)-$(basename "$r") 2>/dev/null
     [ -f "$r" ] && /venv/bin/python -c "
 import json,sys; d=json.load(open('$r')); print('   replay kind=%s input=%r' % (d.get('kind'), str(d.get('input'))[:100]))"
   done
